@@ -12,13 +12,19 @@ from harness import families as F, pipeline as P
 HNAME = "harness.guard"
 SHAPES = ["ok", "g1_other_symbol", "g2_lowercase", "g3_no_define", "g3_other_define", "g4_double", "g5_decl_before",
           "g6_decl_after", "g7_no_guard", "ok_dotted_body2", "g5_decl_before_no_gap", "g5_define_before", "g5_decl_before_no_header",
-          "g5_two_decls_before", "g5_decl_after_comment", "g6_decl_after_no_gap", "ok_no_gap_after_header"]
+          "g5_two_decls_before", "g5_decl_after_comment", "g6_decl_after_no_gap", "ok_no_gap_after_header",
+          # two guard defects at once ("each independently of the others"): a doubled guard whose FIRST copy is itself defective
+          "g34_double_first_no_define", "g14_double_first_other_symbol", "g24_double_first_lowercase", "g344_triple_no_define"]
 EXPECT = {"ok": None, "ok_dotted_body2": None, "g1_other_symbol": "HEADER_PROT_NAME", "g2_lowercase": "HEADER_PROT_UPPER",
           "g3_no_define": "HEADER_PROT_NODEF", "g3_other_define": "HEADER_PROT_NODEF", "g4_double": "HEADER_PROT_MULT",
           "g5_decl_before": "HEADER_PROT_ALL", "g6_decl_after": "HEADER_PROT_ALL_AF", "g7_no_guard": "HEADER_PROT_*",
           "g5_decl_before_no_gap": "HEADER_PROT_ALL", "g5_define_before": "HEADER_PROT_ALL", "g5_decl_before_no_header": "HEADER_PROT_ALL",
           "g5_two_decls_before": "HEADER_PROT_ALL", "g5_decl_after_comment": "HEADER_PROT_ALL", "g6_decl_after_no_gap": "HEADER_PROT_ALL_AF",
-          "ok_no_gap_after_header": None}
+          "ok_no_gap_after_header": None,
+          "g34_double_first_no_define": ("HEADER_PROT_NODEF", "HEADER_PROT_MULT"),
+          "g14_double_first_other_symbol": ("HEADER_PROT_NAME", "HEADER_PROT_MULT"),
+          "g24_double_first_lowercase": ("HEADER_PROT_UPPER", "HEADER_PROT_MULT"),
+          "g344_triple_no_define": ("HEADER_PROT_NODEF", "HEADER_PROT_MULT")}
 NAMECH = "abcdefghijklmnopqrstuvwxyz0123456789_."
 
 
@@ -83,11 +89,11 @@ def build_text(shape, G, G2, hdrname):
         add(proto + "int\tft_gn(int b);\n\n")
     if shape == "g5_decl_after_comment":
         add("/* about */\n" + proto + "\n")
-    sym = G2 if shape in ("g1_other_symbol", "g2_lowercase") else G
+    sym = G2 if shape in ("g1_other_symbol", "g2_lowercase", "g14_double_first_other_symbol", "g24_double_first_lowercase") else G
     add("#ifndef ")
     add(sym)
     add("\n")
-    if shape == "g3_no_define":
+    if shape in ("g3_no_define", "g34_double_first_no_define", "g344_triple_no_define"):
         pass
     elif shape == "g3_other_define":
         add("# define ")
@@ -104,6 +110,17 @@ def build_text(shape, G, G2, hdrname):
         add("\n# define ")
         add(G2)
         add("\n#endif\n")
+    if shape in ("g34_double_first_no_define", "g14_double_first_other_symbol", "g24_double_first_lowercase"):
+        add("#ifndef ")
+        add(G)
+        add("\n# define ")
+        add(G)
+        add("\n#endif\n")
+    if shape == "g344_triple_no_define":
+        for _ in range(2):
+            add("#ifndef ")
+            add(G)
+            add("\n#endif\n")
     if shape == "g6_decl_after":
         add("\n" + "int\tft_gn(int b);\n")
     if shape == "g6_decl_after_no_gap":
@@ -127,8 +144,10 @@ def judge(shape, ext, o):
     elif want == "HEADER_PROT_*":
         if not prot:
             v.append((f"C14:{shape}:missing:any", "header with declarations but no include guard gets no protection diagnostic"))
-    elif want not in prot:
-        v.append((f"C14:{shape}:missing:{want}", f"{shape}: {want} is not reported (got {prot or 'nothing'})"))
+    else:
+        for w in ((want,) if isinstance(want, str) else want):
+            if w not in prot:
+                v.append((f"C14:{shape}:missing:{w}", f"{shape}: {w} is not reported (got {prot or 'nothing'})"))
     return v
 
 
@@ -145,7 +164,7 @@ def run_chunk(chunk, ctx):
     # no trailing dot, no double dot (such names give "__"/"_" oddities that are still valid; keep them in)
     G = oracle_guard(ex, b)
     G2 = None
-    if shape in ("g1_other_symbol", "g3_other_define", "g4_double"):
+    if shape in ("g1_other_symbol", "g3_other_define", "g4_double", "g14_double_first_other_symbol"):
         G2 = []
         for i in range(n):
             v = Var(f"w{i}", map(ord, "ABCDEFGHIJKLMNOPQRSTUVWXYZ_" if i == 0 else "ABCDEFGHIJKLMNOPQRSTUVWXYZ0123456789_"))
@@ -153,7 +172,7 @@ def run_chunk(chunk, ctx):
             G2.append(v)
         ex.solver.add(z3.Or([w.z != g.z for w, g in zip(G2, G[:n])]))
         G2 = G2 + ["_", "H"]
-    elif shape == "g2_lowercase":
+    elif shape in ("g2_lowercase", "g24_double_first_lowercase"):
         G2 = []
         diffs = []
         for i in range(n):
